@@ -20,7 +20,7 @@ from .. import tlc
 from .c09 import ForcedRng, UNSET
 
 INVS = ["InvIdentifyFirst", "InvNewFromDefault", "InvFixedPoint", "InvFreshNoUpdate", "InvVauShape", "InvDefaultLive"]
-CATS = ["none", "admin"]
+CATS = ["none", "admin", "staff"]
 
 
 def P(hmin, hmax, d, cost="linear", quirk="none"):
@@ -60,6 +60,10 @@ def scheme_table():
                            kws=[kw(), kw(maxA=20), kw(minA=22), kw(minA=20, maxA=22), kw(d=30), kw(maxA=21), kw(minA=10, maxA=10),
                                 kw(varyK="int", varyV=3, maxA=24)],
                            vals=[9, 10, 19, 20, 21, 22, 23, 24, 25])
+    # the only scheme whose lowest legal cost is 0
+    t["sun_md5_crypt"] = dict(base=H.sun_md5_crypt.using(default_rounds=10), P=P(0, 999999999, 10), greedy=False,
+                              kws=[kw(), kw(d=0), kw(d=0, maxA=5), kw(minA=0, maxA=0), kw(maxA=0), kw(varyK="int", varyV=3), kw(minA=5)],
+                              vals=[0, 1, 4, 5, 6, 10, 11])
     t["md5_crypt"] = dict(base=H.md5_crypt, P=None, greedy=False, kws=[kw()], vals=[UNSET])
     t["des_crypt"] = dict(base=H.des_crypt, P=None, greedy=False, kws=[kw(), kw(minA=5)], vals=[UNSET])
     t["plaintext"] = dict(base=H.plaintext, P=None, greedy=True, kws=[kw()], vals=[UNSET])
@@ -128,6 +132,8 @@ class Replayer:
             s = "bcrypt"
         elif text.startswith("_"):
             s = "bsdi_crypt"
+        elif text.startswith("$md5"):
+            s = "sun_md5_crypt"
         elif text.startswith("$1$"):
             s = "md5_crypt"
         elif text in PWS.values():
@@ -147,7 +153,10 @@ class Replayer:
             return pw
         if T[h["scheme"]]["P"]:
             # exactly this cost (using(rounds=..) would let the scheme adjust it, e.g. bsdi forces odd)
-            o = base(rounds=h["rounds"], use_defaults=True)
+            kwi = {}
+            if h["scheme"] == "bcrypt":         # every ident a stored bcrypt hash may carry
+                kwi["ident"] = self.rnd.choice(["$2a$", "$2b$", "$2y$"])
+            o = base(rounds=h["rounds"], use_defaults=True, **kwi)
             o.checksum = o._calc_checksum(pw)
             return o.to_string()
         return base.hash(pw)
